@@ -164,13 +164,37 @@ def gen_load_case(rng, rep=3):
 # schema-shaped configurations for the real Configuration struct (op "cfg")
 
 DUR = ["1s", "5s", "2m", "3h", "250ms"]
+# values of string-typed properties that do not look like strings: a file has to quote them, an operator writes them
+# plainly into a variable. FAITHFUL ones are read back by YAML to something that prints as written
+NUMLIKE_FAITHFUL = ["123456", "0", "-1", "42", "yes", "no", "on", "9000"]
+NUMLIKE_RETYPED = ["007", "010", "1e3", "1.0", "1.10", "true", "false", "True", "0x1f", "1_000", "+5", "08", "00"]
+
+
+def strange_string(rng, p=0.3):
+    """sometimes a number-looking value for a string property (None: keep the ordinary value)"""
+    if rng.random() < p:
+        return rng.choice(NUMLIKE_FAITHFUL + NUMLIKE_RETYPED)
+    return None
+
+
+def typed_string_leaf(path):
+    """is the leaf at `path` a string field of the Configuration struct (not a member of a free-form map)?"""
+    if "config" in path or not path or isinstance(path[-1], int):
+        return False
+    return path[-1] in ("host", "id", "key_id") or tuple(path[-2:]) == ("key_store", "password")
 SIZE = ["4KB", "1MB", "512B", "10KB"]
 
 
 def gen_service(rng, svc="proxy"):
     s = {}
     if rng.random() < 0.6:
-        s["host"] = rng.choice(["127.0.0.1", "0.0.0.0", "localhost"])
+        s["host"] = strange_string(rng, 0.2) or rng.choice(["127.0.0.1", "0.0.0.0", "localhost"])
+    if rng.random() < 0.25:
+        s["tls"] = {"key_store": {"path": "/etc/heimdall/keys.pem", "password": strange_string(rng, 0.7) or "VerySecret!"}}
+        if rng.random() < 0.6:
+            s["tls"]["key_id"] = strange_string(rng, 0.7) or "key1"
+        if rng.random() < 0.4:
+            s["tls"]["min_version"] = rng.choice(["TLS1.2", "TLS1.3"])
     if rng.random() < 0.7:
         s["port"] = rng.choice([4455, 4456, 4457, 8080, 9000])
     if rng.random() < 0.5:
@@ -200,6 +224,8 @@ def gen_mechanisms(rng):
     for i in range(rng.randint(1, 3)):
         t = rng.choice(["anonymous", "unauthorized", "basic_auth", "anonymous_cfg"])
         m = {"id": f"authn{i}", "type": t}
+        if i == 0 and rng.random() < 0.3:      # one per list: entries must stay different (uniqueItems)
+            m["id"] = str(rng.choice([1000, 123456, 42]) + i) if rng.random() < 0.6 else rng.choice(NUMLIKE_RETYPED)
         if t == "basic_auth":
             m["config"] = {"user_id": rng.choice(["u", "joe"]), "password": rng.choice(["pw", "secret"])}
         if t == "anonymous_cfg":
@@ -248,6 +274,21 @@ def gen_mechanisms(rng):
     return mech
 
 
+def gen_cache(rng, p_redis=0.5):
+    if rng.random() >= p_redis:
+        return {"type": rng.choice(["noop", "in-memory"])}
+    conf = {"address": rng.choice(["foo:12345", "bar:6379", "redis.local:6379"])}
+    if rng.random() < 0.5:
+        conf["db"] = rng.choice([0, 1, 3])
+    if rng.random() < 0.5:
+        conf["credentials"] = {"path": rng.choice(["/path/to/credentials.yaml", "/run/secrets/redis"])}
+    if rng.random() < 0.5:
+        conf["client_cache"] = {"disabled": rng.random() < 0.5}
+        if rng.random() < 0.5:
+            conf["client_cache"]["ttl"] = rng.choice(["5m", "30s"])
+    return {"type": "redis", "config": conf}
+
+
 def gen_config(rng):
     c = {}
     if rng.random() < 0.8:
@@ -266,7 +307,7 @@ def gen_config(rng):
     if rng.random() < 0.3:
         c["profiling"] = {"enabled": rng.random() < 0.5, "host": "0.0.0.0", "port": rng.choice([9999, 10251])}
     if rng.random() < 0.3:
-        c["cache"] = {"type": rng.choice(["noop", "in-memory"])}
+        c["cache"] = gen_cache(rng)
     if rng.random() < 0.85:
         c["mechanisms"] = gen_mechanisms(rng)
         if rng.random() < 0.6:
@@ -305,8 +346,16 @@ _PLAIN = _re.compile(r"^[A-Za-z/][A-Za-z0-9_./:?=-]*$")
 _YAML_WORDS = {"true", "false", "null", "yes", "no", "on", "off", "y", "n", "~"}
 
 
-def raw_value(atom, rng=None):
-    """text of an environment variable that YAML types back to `atom` (plain where that is safe, else quoted)"""
+_CANON_INT = _re.compile(r"^-?(0|[1-9][0-9]*)$")
+
+
+def raw_value(atom, rng=None, path=None):
+    """text of an environment variable that YAML types back to `atom` (plain where that is safe, else quoted).
+    For a string field of the Configuration struct the plain spelling is used whenever YAML's reading of it prints as
+    written (123456, 0, -1, yes): the loader converts it back"""
+    if path is not None and isinstance(atom, str) and typed_string_leaf(path) and \
+            (_CANON_INT.match(atom) or atom in ("yes", "no", "on", "off")):
+        return atom
     if isinstance(atom, bool):
         return "true" if atom else "false"
     if isinstance(atom, int):
@@ -361,7 +410,7 @@ def valid_other(path, v, rng):
         return None
     if isinstance(key, int):
         return None                                  # members of scalar lists must stay unique / well-formed
-    if key in ("host",):
+    if key in ("host", "key_id") or (key == "password" and "key_store" in path):
         return "127.0.0.2" if v != "127.0.0.2" else "127.0.0.3"
     if key in ("level",):
         return "fatal" if v != "fatal" else "panic"
@@ -425,7 +474,7 @@ def plan_case(plan, rng=None, rep=2):
     envl = [e for e in plan if e["env"]]
     if rng is not None:
         rng.shuffle(envl)
-    env = [[env_name(tuple(e["path"])), raw_value(e["value"], rng), e["value"]] for e in envl]
+    env = [[env_name(tuple(e["path"])), raw_value(e["value"], rng, tuple(e["path"])), e["value"]] for e in envl]
     n = len(env)
     orders = [list(range(n))]
     if n > 1 and rng is not None:
@@ -483,3 +532,69 @@ def type_config(cat, typ):
     mech = {"authenticators": [{"id": "a", "type": "anonymous"}], "finalizers": [{"id": "f", "type": "noop"}]}
     mech[cat] = [dict({"id": "m", "type": typ}, **extra)]
     return {"mechanisms": mech}
+
+
+# ---------------------------------------------------------------------------------------------------------------
+# histories: several loads one after the other in one process
+
+def gen_history(rng):
+    """3-4 loads; what one load defines below cache.config (a free-form map with an empty default) and elsewhere must
+    not show up in the others"""
+    loads = []
+    for _ in range(rng.randint(3, 4)):
+        c = {}
+        r = rng.random()
+        if r < 0.55:
+            c["cache"] = gen_cache(rng, 0.8)
+        if rng.random() < 0.5:
+            c["log"] = {"level": rng.choice(["debug", "info", "warning"])}
+        if rng.random() < 0.4:
+            c["serve"] = {"decision": gen_service(rng, "decision")}
+            if not c["serve"]["decision"]:
+                del c["serve"]
+        if rng.random() < 0.3:
+            c["mechanisms"] = gen_mechanisms(rng)
+        if rng.random() < 0.3:
+            c["providers"] = {"file_system": {"src": rng.choice(["rules.yaml", "/etc/rules"]), "watch": rng.random() < 0.5}}
+        if not c:
+            c["metrics"] = {"enabled": rng.random() < 0.5}
+        mode = rng.choice(["file", "env", "over"])
+        if mode == "file":
+            case = base_case(c)
+        else:
+            case = plan_case(gen_plan(rng, c, mode), rng, rep=1)
+        loads.append({k: case[k] for k in ("file", "env") if k in case})
+        loads[-1].setdefault("env", [])
+    return {"fam": "config", "op": "history", "loads": loads}
+
+
+# ---------------------------------------------------------------------------------------------------------------
+# values: every value shape for every leaf type, from the file (as the schema demands it) and from the environment
+# (plain spelling)
+
+LEAF_VALUES = {
+    "string": NUMLIKE_FAITHFUL + NUMLIKE_RETYPED + ["abc", "x y", "-0", "5s", "1:30", "12abc", "off", "TRUE", "0o17", ".5"],
+    "int": [0, 1, -3, 7, 4456, 100000, -1],
+    "bool": [True, False],
+    "text": ["5s", "250ms", "3h0m0s", "1m30s"],
+}
+LEAF_FIELDS = {"string": ["s", "n.s", "p"], "int": ["i", "n.i"], "bool": ["b"], "text": ["d"]}
+
+
+def spelling(value):
+    if isinstance(value, bool):
+        return "true" if value else "false"
+    return str(value)
+
+
+def leaf_cases():
+    """(type, field, value, file case, env case)"""
+    res = []
+    for typ, values in LEAF_VALUES.items():
+        for field in LEAF_FIELDS[typ]:
+            segs = tuple(field.split("."))
+            for v in values:
+                fcase = {"fam": "config", "op": "leaf", "rep": 2, "env": [], "file": json.dumps(build([(segs, v)]))}
+                ecase = {"fam": "config", "op": "leaf", "rep": 2, "env": [[env_name(segs), spelling(v), None]]}
+                res.append((typ, field, v, fcase, ecase))
+    return res
